@@ -27,7 +27,8 @@ class Exec:
 
 class Runner:
     def __init__(self, spec, builder='api', event='e', extra_context=None, interp_kwargs=None,
-                 prebuilt=None):
+                 prebuilt=None, observe=False):
+        self.observe = observe
         self.spec = spec
         self.model = Model(spec)
         self.T = self.model.T
@@ -53,7 +54,12 @@ class Runner:
     def new_interpreter(self):
         ctx = probes.CONTEXT()
         ctx.update(self.extra_context)
-        return Interpreter(self.sc, initial_context=ctx, **self.interp_kwargs)
+        it = Interpreter(self.sc, initial_context=ctx, **self.interp_kwargs)
+        if self.observe:
+            # a client that looks at the public state in the middle of a step (on every meta-event); reading
+            # must not change anything
+            it.attach(lambda ev: (it.configuration, it.time, it.final))
+        return it
 
     def tid(self, transition):
         t = self.tid_of.get(id(transition))
@@ -217,11 +223,11 @@ def _plain_ctx(ctx):
 
 
 def explore(spec, k, oracles, builder='api', max_states=100000, k_by_arity=None, extra_ops=True,
-            runner=None, on_exec=None):
+            runner=None, on_exec=None, observe=False):
     """complete BFS over (configuration, snapshots).
     oracles: list of callables (runner, ex) -> list of (category, detail)
     -> dict(states, transitions, outcomes Counter, violations [..], exhaustive bool)"""
-    R = runner or Runner(spec, builder)
+    R = runner or Runner(spec, builder, observe=observe)
     model = R.model
     res = {'states': 0, 'transitions': 0, 'outcomes': collections.Counter(), 'violations': [],
            'exhaustive': True, 'max_depth': 0}
